@@ -143,3 +143,556 @@ Proof.
 Qed.
 
 End Nil.
+
+(* ---- 2. any well-behaved environment ------------------------------------------------------------- *)
+
+Section Env.
+Variable sha : str -> str.
+Variable leaf_hash : str -> hash.
+Variable node_hash : hash -> hash -> hash.
+Variable V : str -> str -> str -> bool.
+Variable esc_path esc_vers : str -> option str.
+Variable skip : str -> bool.
+Variable vs : verifiers str.
+Variable name : str.
+Hypothesis signed_small : forall msg t, signed_tree V vs msg t -> Codec.tN t < 2 ^ 62.
+
+Notation NodeAt := (TileSpec.NodeAt node_hash).
+Notation tile_ok := (TileSpec.tile_ok node_hash).
+Notation CInv := (CInv leaf_hash V NodeAt vs name).
+Notation Consistent := (Consistent node_hash NodeAt).
+Notation coll := (coll node_hash).
+Notation signed_tree := (signed_tree V vs).
+Notation head_ok := (head_ok V vs).
+Notation note_ok := (note_ok V vs).
+Notation merged := (merged node_hash V NodeAt vs).
+Notation on_timeline := (on_timeline node_hash NodeAt).
+Notation ev_safe := (ev_safe leaf_hash node_hash V NodeAt tile_ok vs name).
+Notation ev_nocfg := (ev_nocfg leaf_hash node_hash V NodeAt tile_ok vs name).
+Notation ev_quiet := (ev_quiet leaf_hash node_hash V NodeAt tile_ok vs name).
+Notation config_write_ok := (config_write_ok node_hash V NodeAt vs).
+
+Let ct_spec := check_trees_spec sha leaf_hash node_hash V esc_path esc_vers skip NodeAt tile_ok
+                  (c10_tiles_sound node_hash) (c10_saved_authenticated node_hash) vs name.
+Let rc_spec := read_config_spec leaf_hash node_hash V NodeAt tile_ok vs name.
+Let tf_cinv := tframe_cinv leaf_hash V NodeAt vs name.
+
+(* what the environment may install: a head signed under the configured key that strictly extends
+   the current one — what another mergeLatestMem of the same client installs *)
+Definition envf_ok (f : envf) : Prop :=
+  forall L Lm t m, f L Lm = Some (t, m) ->
+    signed_tree m t /\ Codec.tN L < Codec.tN t /\ Consistent L t.
+
+Definition env_ok (e : env) : Prop := Forall envf_ok e.
+
+(* the heads c.latest goes through by environment turns *)
+Inductive chain (L : tree) : tree -> Prop :=
+| chain_refl : chain L L
+| chain_step L1 L2 : chain L L1 -> Codec.tN L1 < Codec.tN L2 -> Consistent L1 L2 -> chain L L2.
+
+Lemma chain_trans L1 L2 L3 : chain L1 L2 -> chain L2 L3 -> chain L1 L3.
+Proof. intros H12 H23. induction H23; [exact H12 | eapply chain_step; eauto]. Qed.
+
+Lemma chain_le L1 L2 : chain L1 L2 -> Codec.tN L1 <= Codec.tN L2.
+Proof. induction 1; lia. Qed.
+
+(* up to a collision a chain is one Consistent step *)
+Lemma chain_consistent L1 L2 :
+  chain L1 L2 -> Codec.tN L2 <= 2 ^ 62 -> L2 = L1 \/ (Codec.tN L1 < Codec.tN L2 /\ Consistent L1 L2) \/ coll.
+Proof.
+  induction 1 as [|L1' L2 H IH Hlt Hc]; intros Hb; [left; reflexivity|].
+  destruct (IH ltac:(lia)) as [->|[[Hlt1 Hc1]|C]].
+  - right. left. auto.
+  - destruct (consistent_trans node_hash L1 L1' L2 Hc1 Hc ltac:(lia) ltac:(lia)) as [Hc2|C]; [|right; right; exact C].
+    right. left. split; [lia | exact Hc2].
+  - right. right. exact C.
+Qed.
+
+(* everything but the head and the trace is as before *)
+Record eframe (s s' : state) : Prop := mkEframe {
+  ef_w : s_w s' = s_w s;
+  ef_tr : s_tr s' = s_tr s;
+  ef_init : c_init (s_c s') = c_init (s_c s);
+  ef_name : c_name (s_c s') = c_name (s_c s);
+  ef_vs : c_verifiers (s_c s') = c_verifiers (s_c s);
+  ef_records : c_records (s_c s') = c_records (s_c s);
+  ef_height : c_height (s_c s') = c_height (s_c s)
+}.
+
+Lemma eframe_mframe s s' : eframe s s' -> mframe s s'.
+Proof. intros []. constructor; auto; rewrite ef_w0; reflexivity. Qed.
+
+Lemma eframe_same_config s s' : eframe s s' -> same_config s s'.
+Proof. intros []. split; rewrite ef_w0; reflexivity. Qed.
+
+Lemma env_point_spec e s e' s' :
+  env_ok e -> CInv (s_c s) -> env_point e s = (e', s') ->
+  CInv (s_c s') /\ env_ok e' /\ eframe s s' /\ e' = List.tl e /\
+  ((c_latest (s_c s') = c_latest (s_c s) /\ c_latest_msg (s_c s') = c_latest_msg (s_c s)) \/
+   (e <> [] /\ signed_tree (c_latest_msg (s_c s')) (c_latest (s_c s')) /\
+    Codec.tN (c_latest (s_c s)) < Codec.tN (c_latest (s_c s')) /\
+    Consistent (c_latest (s_c s)) (c_latest (s_c s')))).
+Proof.
+  intros He HI H. destruct e as [|f rest]; cbn [env_point] in H.
+  - apply ret_inv in H as [-> ->]. split; [exact HI|]. split; [constructor|].
+    split; [constructor; reflexivity|]. split; [reflexivity|]. left. auto.
+  - inversion He as [|f0 r0 Hf Hrest]; subst.
+    rewrite bind_get_client in H.
+    destruct (f (c_latest (s_c s)) (c_latest_msg (s_c s))) as [[t m]|] eqn:Ef.
+    + destruct (Hf _ _ _ _ Ef) as (Hs & Hlt & Hc).
+      minv H. apply install_inv in E. subst s0. apply ret_inv in H as [-> ->]. cbn [s_c s_w s_tr].
+      split; [destruct HI; constructor; cbn; auto; right; exact Hs|].
+      split; [exact Hrest|]. split; [constructor; reflexivity|]. split; [reflexivity|].
+      right. cbn. split; [discriminate|]. auto.
+    + apply ret_inv in H as [-> ->]. split; [exact HI|]. split; [exact Hrest|].
+      split; [constructor; reflexivity|]. split; [reflexivity|]. left. auto.
+Qed.
+
+(* the state s with (tr, m) installed as its head: what install does *)
+Definition install_state (tr : tree) (m : str) (s : state) : state :=
+  mkState (s_w s)
+          (mkClient (c_init (s_c s)) (c_name (s_c s)) (c_verifiers (s_c s)) tr m
+                    (c_records (s_c s)) (c_tiles (s_c s)) (c_tile_saved (s_c s)) (c_height (s_c s)))
+          (s_tr s).
+
+(* (c) the security report: a Security event was emitted, and every Security event emitted names the
+   offending note and the note of the head the client holds when the call returns *)
+Definition sec_report (offending : str) (s s' : state) : Prop :=
+  exists evs, s_tr s' = s_tr s ++ evs /\ Exists is_sec evs /\
+    forall m, In (EvSecurity m) evs ->
+      infix (indent offending) m /\ infix (indent (c_latest_msg (s_c s'))) m.
+
+Lemma sec_report_prefix off s s1 s' :
+  textend ev_quiet s s1 -> sec_report off s1 s' -> sec_report off s s'.
+Proof.
+  intros (e1 & H1 & Q1) (e2 & H2 & Hex & Hall). exists (e1 ++ e2).
+  split; [rewrite H2, H1, app_assoc; reflexivity|]. split; [apply Exists_app; right; exact Hex|].
+  intros m Hin. apply in_app_or in Hin as [Hin|Hin]; [|auto].
+  exfalso. rewrite Forall_forall in Q1. destruct (Q1 _ Hin) as [_ Hns]. apply Hns. exact I.
+Qed.
+
+Lemma sec_report_same_tr off s s1 s' :
+  s_tr s1 = s_tr s -> sec_report off s1 s' -> sec_report off s s'.
+Proof. intros Htr (e2 & H2 & Hex & Hall). exists e2. rewrite <- Htr. auto. Qed.
+
+(* check_trees with a security error: the report names the two notes it was given *)
+Lemma check_trees_sec older on newer nn s s' :
+  CInv (s_c s) ->
+  0 <= Codec.tN older <= Codec.tN newer -> Codec.tN newer < 2 ^ 62 ->
+  trusted V vs nn newer -> note_ok on -> note_ok nn ->
+  check_trees node_hash older on newer nn s = (Some ESecurity, s') ->
+  exists evs, s_tr s' = s_tr s ++ evs /\ Exists is_sec evs /\
+    forall m, In (EvSecurity m) evs -> infix (indent on) m /\ infix (indent nn) m.
+Proof.
+  intros HI Hn HN Htr Hon Hnn H.
+  destruct (ct_spec _ _ _ _ _ _ _ HI Hn HN Htr Hon Hnn H) as (_ & (evs & Htr' & Hall) & _ & Hsec & _).
+  destruct (Hsec eq_refl) as (evs' & Htr'' & Hex).
+  rewrite Htr' in Htr''. apply app_inv_head in Htr''. subst evs'.
+  exists evs. split; [exact Htr'|]. split; [exact Hex|].
+  intros m Hin. rewrite Forall_forall in Hall. destruct (Hall _ Hin) as [_ Hs].
+  destruct (Hs I) as (h & p & [= ->]). apply security_msg_contains.
+Qed.
+
+(* ---- mergeLatestMem under interference ------------------------------------------------------------ *)
+
+(* what a call of mergeLatestMem (or of its loop) guarantees; s1 is the state immediately before the
+   decision (for MsgFuture: immediately before the install) *)
+Definition mem_post (msg : str) (s : state) (r : when + cerr) (e' : env) (s' : state) : Prop :=
+  CInv (s_c s') /\ mframe s s' /\ same_config s s' /\ env_ok e' /\ textend ev_nocfg s s' /\
+  r <> inr EFuelC /\
+  match r with
+  | inl w =>
+      textend ev_quiet s s' /\
+      exists s1, chain (c_latest (s_c s)) (c_latest (s_c s1)) /\
+        merged w msg (c_latest (s_c s1)) (c_latest (s_c s')) (c_latest_msg (s_c s')) /\
+        (w = MsgFuture -> exists tr, s' = install_state tr msg s1) /\
+        (w <> MsgFuture -> s1 = s')
+  | inr err =>
+      chain (c_latest (s_c s)) (c_latest (s_c s')) /\
+      (err = ESecurity -> sec_report msg s s') /\ (err <> ESecurity -> textend ev_quiet s s')
+  end.
+
+Lemma textend_same_tr P s s' : s_tr s' = s_tr s -> textend P s s'.
+Proof. intros H. exists []. rewrite app_nil_r. auto. Qed.
+
+Lemma mem_loop_env_spec fuel : forall tr msg e s r e' s',
+  CInv (s_c s) -> env_ok e -> signed_tree msg tr -> (length e < fuel)%nat ->
+  mem_loop_env node_hash fuel tr msg (c_latest (s_c s)) (c_latest_msg (s_c s)) e s = ((r, e'), s') ->
+  mem_post msg s r e' s'.
+Proof.
+  induction fuel as [|f IH]; intros tr msg e s r e' s' HI He Hsig Hfuel H; [inversion Hfuel|].
+  cbn [mem_loop_env] in H.
+  set (L := c_latest (s_c s)) in *. set (Lm := c_latest_msg (s_c s)) in *.
+  assert (Hhead : head_ok Lm L) by apply (ci_head _ _ _ _ _ _ HI).
+  assert (Hlat := head_ok_range V vs signed_small _ _ Hhead).
+  assert (Hnote : note_ok Lm) by (eapply head_ok_note; exact Hhead).
+  assert (Htrust : trusted V vs Lm L) by (destruct Hhead as [[_ H0]|Hs]; [left; exact H0 | right; exact Hs]).
+  assert (Htr := signed_range V vs signed_small _ _ Hsig).
+  assert (Hnm : note_ok msg) by (right; eauto).
+  destruct (Codec.tN tr <=? Codec.tN L) eqn:Hle.
+  - apply Z.leb_le in Hle. minv H.
+    assert (P1 : 0 <= Codec.tN tr <= Codec.tN L) by lia.
+    assert (P2 : Codec.tN L < 2 ^ 62) by lia.
+    destruct (ct_spec _ _ _ _ _ _ _ HI P1 P2 Htrust Hnm Hnote E) as (F & T & Hnone & Hsec & Hq).
+    assert (Tn : textend ev_nocfg s s0) by (eapply textend_impl; [|exact T]; intros ev []; auto).
+    assert (HL0 : c_latest (s_c s0) = L) by apply (tf_latest _ _ F).
+    assert (HM0 : c_latest_msg (s_c s0) = Lm) by apply (tf_msg _ _ F).
+    destruct a as [err|]; apply ret_inv in H as [[= -> ->] ->].
+    + split; [eapply tf_cinv; eauto|]. split; [apply tframe_mframe; exact F|].
+      split; [apply tframe_same_config; exact F|]. split; [exact He|]. split; [exact Tn|].
+      split; [intros [= ->]; apply check_trees_errs in E; intuition discriminate|].
+      split; [rewrite HL0; apply chain_refl|]. split.
+      * intros ->. destruct (check_trees_sec _ _ _ _ _ _ HI P1 P2 Htrust Hnm Hnote E) as (evs & Ht & Hex & Hall).
+        exists evs. split; [exact Ht|]. split; [exact Hex|]. rewrite HM0. exact Hall.
+      * intros Hne. apply Hq. congruence.
+    + split; [eapply tf_cinv; eauto|]. split; [apply tframe_mframe; exact F|].
+      split; [apply tframe_same_config; exact F|]. split; [exact He|]. split; [exact Tn|].
+      split; [discriminate|]. split; [apply Hq; discriminate|].
+      exists s0. split; [rewrite HL0; apply chain_refl|]. rewrite HL0.
+      split; [|split; [destruct (Codec.tN tr <? Codec.tN L); discriminate | reflexivity]].
+      destruct (Codec.tN tr <? Codec.tN L) eqn:Hlt; cbn.
+      * apply Z.ltb_lt in Hlt. split; [reflexivity|]. split; [lia|]. right. exists tr. auto.
+      * apply Z.ltb_ge in Hlt. split; [reflexivity|]. right. exists tr. split; [exact Hsig|]. split; [lia | auto].
+  - apply Z.leb_gt in Hle. minv H.
+    assert (P1 : 0 <= Codec.tN L <= Codec.tN tr) by lia.
+    assert (P2 : Codec.tN tr < 2 ^ 62) by lia.
+    assert (P4 : trusted V vs msg tr) by (right; exact Hsig).
+    destruct (ct_spec _ _ _ _ _ _ _ HI P1 P2 P4 Hnote Hnm E) as (F & T & Hnone & Hsec & Hq).
+    assert (Tn : textend ev_nocfg s s0) by (eapply textend_impl; [|exact T]; intros ev []; auto).
+    assert (HL0 : c_latest (s_c s0) = L) by apply (tf_latest _ _ F).
+    assert (HM0 : c_latest_msg (s_c s0) = Lm) by apply (tf_msg _ _ F).
+    assert (HI0 := tf_cinv _ _ F HI).
+    destruct a as [err|].
+    + apply ret_inv in H as [[= -> ->] ->].
+      split; [exact HI0|]. split; [apply tframe_mframe; exact F|].
+      split; [apply tframe_same_config; exact F|]. split; [exact He|]. split; [exact Tn|].
+      split; [intros [= ->]; apply check_trees_errs in E; intuition discriminate|].
+      split; [rewrite HL0; apply chain_refl|]. split.
+      * intros ->. destruct (check_trees_sec _ _ _ _ _ _ HI P1 P2 P4 Hnote Hnm E) as (evs & Ht & Hex & Hall).
+        exists evs. split; [exact Ht|]. split; [exact Hex|]. rewrite HM0.
+        intros m Hin. destruct (Hall m Hin). auto.
+      * intros Hne. apply Hq. congruence.
+    + specialize (Hnone eq_refl). specialize (Hq ltac:(discriminate)).
+      minva H e1 s2 Ep. destruct (env_point_spec _ _ _ _ He HI0 Ep) as (HI2 & He1 & EF & Etl & Hmove).
+      rewrite bind_get_client in H.
+      assert (Fm2 : mframe s s2) by (eapply mframe_trans; [apply tframe_mframe; exact F | apply eframe_mframe; exact EF]).
+      assert (Cf2 : same_config s s2).
+      { destruct (tframe_same_config _ _ F) as [A1 A2]. destruct (eframe_same_config _ _ EF) as [B1 B2].
+        split; congruence. }
+      assert (Tn2 : textend ev_nocfg s s2).
+      { destruct Tn as (evs & ? & ?). exists evs. rewrite (ef_tr _ _ EF). auto. }
+      assert (Tq2 : textend ev_quiet s s2).
+      { destruct Hq as (evs & ? & ?). exists evs. rewrite (ef_tr _ _ EF). auto. }
+      destruct (tree_eqb (c_latest (s_c s2)) L) eqn:Heq.
+      * (* nobody moved the head: install *)
+        apply tree_eqb_eq in Heq.
+        minva H u s3 Ei. apply install_inv in Ei. apply ret_inv in H as [[= -> ->] ->].
+        change s3 with s3. subst s3. fold (install_state tr msg s2).
+        split; [destruct HI2; constructor; cbn; auto; right; exact Hsig|].
+        split; [eapply mframe_trans; [exact Fm2|]; constructor; reflexivity|].
+        split; [destruct Cf2; split; assumption|].
+        split; [exact He1|]. split; [destruct Tn2 as (evs & ? & ?); exists evs; auto|].
+        split; [discriminate|]. split; [destruct Tq2 as (evs & ? & ?); exists evs; auto|].
+        exists s2. split; [rewrite Heq; apply chain_refl|]. rewrite Heq.
+        split; [|split; [intros _; exists tr; reflexivity | congruence]].
+        cbn. split; [eapply signed_tree_nonnil; eauto|]. split; [reflexivity|]. split; [exact Hsig|]. split; [lia | exact Hnone].
+      * (* the head moved underfoot: go around again with the new snapshot *)
+        destruct Hmove as [[Hs1 _]|(Hne & Hs2 & Hlt2 & Hc2)].
+        { rewrite Hs1, HL0, tree_eqb_refl in Heq. discriminate. }
+        rewrite HL0 in Hlt2, Hc2.
+        assert (Hf : (length e1 < f)%nat).
+        { subst e1. destruct e as [|f0 rest]; [congruence|]. cbn in *. lia. }
+        specialize (IH _ _ _ _ _ _ _ HI2 He1 Hsig Hf H).
+        destruct IH as (HI' & Fm' & Cf' & He' & Tn' & Hnf & Hr).
+        split; [exact HI'|]. split; [eapply mframe_trans; eauto|].
+        split; [destruct Cf2, Cf'; split; congruence|].
+        split; [exact He'|]. split; [eapply textend_trans; eauto|]. split; [exact Hnf|].
+        assert (Hch : chain L (c_latest (s_c s2))) by (eapply chain_step; [apply chain_refl | exact Hlt2 | exact Hc2]).
+        destruct r as [w|err].
+        -- destruct Hr as (Tq' & s1 & Hc1 & Hm & Hfut & Hnfut).
+           split; [eapply textend_trans; eauto|]. exists s1.
+           split; [eapply chain_trans; eauto | auto].
+        -- destruct Hr as (Hc' & Hsec' & Hq').
+           split; [eapply chain_trans; eauto|]. split.
+           ++ intros Herr. eapply sec_report_prefix; [exact Tq2 | apply Hsec'; exact Herr].
+           ++ intros Hne'. eapply textend_trans; [exact Tq2 | apply Hq'; exact Hne'].
+Qed.
+
+Theorem merge_latest_mem_env_spec msg e s r e' s' :
+  CInv (s_c s) -> env_ok e ->
+  merge_latest_mem_env node_hash V msg e s = ((r, e'), s') ->
+  mem_post msg s r e' s'.
+Proof.
+  intros HI He H. unfold merge_latest_mem_env in H. rewrite bind_get_client in H.
+  assert (Hrefl : forall r0, r0 <> inr EFuelC ->
+            match r0 with
+            | inl w => merged w msg (c_latest (s_c s)) (c_latest (s_c s)) (c_latest_msg (s_c s)) /\ w <> MsgFuture
+            | inr err => err <> ESecurity
+            end -> (r0, e, s) = (r, e', s') -> mem_post msg s r e' s').
+  { intros r0 Hnf Hr0 [= <- <- <-].
+    split; [exact HI|]. split; [apply mframe_refl|]. split; [split; reflexivity|]. split; [exact He|].
+    split; [apply textend_refl|]. split; [exact Hnf|].
+    destruct r0 as [w|err].
+    - destruct Hr0 as [Hm Hw]. split; [apply textend_refl|]. exists s. split; [apply chain_refl|].
+      split; [exact Hm|]. split; [congruence | reflexivity].
+    - split; [apply chain_refl|]. split; [congruence | intros _; apply textend_refl]. }
+  destruct msg as [|b msg'].
+  { apply ret_inv in H as [[= -> ->] ->]. eapply Hrefl; [| |reflexivity]; [discriminate|].
+    assert (Hr0 := head_ok_range V vs signed_small _ _ (ci_head _ _ _ _ _ _ HI)).
+    destruct (Codec.tN (c_latest (s_c s)) =? 0) eqn:H0; cbn.
+    - split; [auto | discriminate].
+    - apply Z.eqb_neq in H0. split; [|discriminate]. split; [reflexivity|]. split; [lia | auto]. }
+  set (msg := b :: msg') in *.
+  rewrite (ci_vs _ _ _ _ _ _ HI) in H.
+  destruct (Note.open str V msg vs) as [n|err] eqn:Hopen.
+  2: { apply ret_inv in H as [[= -> ->] ->]. eapply Hrefl; [| |reflexivity]; discriminate. }
+  destruct (parse_tree (n_text n)) as [tr|k|] eqn:Hparse.
+  2,3: apply ret_inv in H as [[= -> ->] ->]; eapply Hrefl; [| |reflexivity]; discriminate.
+  assert (Hsig : signed_tree msg tr) by (exists n; auto).
+  eapply mem_loop_env_spec; eauto.
+Qed.
+
+(* (b) a head is installed only if it is Consistent with the head current AT INSTALL TIME: s1 is the
+   state immediately before the install, reached from s by tile traffic and environment turns only *)
+Theorem mem_env_installs_consistent msg e s e' s' :
+  CInv (s_c s) -> env_ok e ->
+  merge_latest_mem_env node_hash V msg e s = ((inl MsgFuture, e'), s') ->
+  exists s1 tr, s' = install_state tr msg s1 /\ signed_tree msg tr /\
+    chain (c_latest (s_c s)) (c_latest (s_c s1)) /\
+    Codec.tN (c_latest (s_c s1)) < Codec.tN tr /\ Consistent (c_latest (s_c s1)) tr.
+Proof.
+  intros HI He H. apply merge_latest_mem_env_spec in H; auto.
+  destruct H as (_ & _ & _ & _ & _ & _ & _ & s1 & Hch & Hm & Hfut & _).
+  destruct (Hfut eq_refl) as (tr & ->). cbn in Hm. destruct Hm as (_ & _ & Hs & Hlt & Hc).
+  exists s1, tr. auto.
+Qed.
+
+(* ... hence a signed head that is not on the timeline of any head the client holds during the call
+   is never installed: the call fails and the client's head is still one the environment put there *)
+Theorem fork_never_installed_env msg tr e s r e' s' :
+  CInv (s_c s) -> env_ok e -> signed_tree msg tr ->
+  (forall L, chain (c_latest (s_c s)) L -> ~ on_timeline L tr) ->
+  merge_latest_mem_env node_hash V msg e s = ((r, e'), s') ->
+  (exists err, r = inr err) /\ chain (c_latest (s_c s)) (c_latest (s_c s')) /\
+  same_config s s' /\ textend ev_nocfg s s'.
+Proof.
+  intros HI He Hsig Hfork H. assert (Hnn := signed_tree_nonnil _ _ _ _ Hsig).
+  apply merge_latest_mem_env_spec in H; auto.
+  destruct H as (_ & _ & Cf & _ & Tn & _ & Hr).
+  destruct r as [w|err].
+  - exfalso. destruct Hr as (_ & s1 & Hch & Hm & _). apply (Hfork _ Hch). unfold SeqProofsSafe.on_timeline.
+    destruct w; cbn in Hm.
+    + destruct Hm as (_ & _ & [->|(t & Ht & Hlt & Hc)]); [contradiction|].
+      rewrite (signed_tree_fun _ _ _ _ _ Hsig Ht).
+      replace (Codec.tN t <=? Codec.tN (c_latest (s_c s1))) with true by (symmetry; apply Z.leb_le; lia).
+      exact Hc.
+    + destruct Hm as (_ & [->|(t & Ht & Heq & Hc)]); [contradiction|].
+      rewrite (signed_tree_fun _ _ _ _ _ Hsig Ht).
+      replace (Codec.tN t <=? Codec.tN (c_latest (s_c s1))) with true by (symmetry; apply Z.leb_le; lia).
+      exact Hc.
+    + destruct Hm as (_ & _ & Ht & Hlt & Hc).
+      rewrite (signed_tree_fun _ _ _ _ _ Hsig Ht).
+      replace (Codec.tN (c_latest (s_c s')) <=? Codec.tN (c_latest (s_c s1))) with false by (symmetry; apply Z.leb_gt; lia).
+      exact Hc.
+  - destruct Hr as (Hch & _). split; [eauto|]. auto.
+Qed.
+
+(* ---- mergeLatest under interference --------------------------------------------------------------- *)
+
+(* event safety with the collision disjunct that transitivity of Consistent needs *)
+Definition ev_safe_c (ev : event) : Prop :=
+  match ev with
+  | EvWriteConfig f old new ok => f = latest_file name /\ (config_write_ok old new \/ coll)
+  | _ => ev_safe ev
+  end.
+
+Lemma ev_nocfg_safe_c ev : ev_nocfg ev -> ev_safe_c ev.
+Proof. intros [H1 H2]. destruct ev; cbn in *; auto. contradiction. Qed.
+
+Lemma ev_quiet_safe_c ev : ev_quiet ev -> ev_safe_c ev.
+Proof. intros [H _]. apply ev_nocfg_safe_c. exact H. Qed.
+
+Definition merge_post (s : state) (r : option cerr) (e' : env) (s' : state) : Prop :=
+  CInv (s_c s') /\ mframe s s' /\ env_ok e' /\ textend ev_safe_c s s' /\
+  (r = Some ESecurity -> exists off, note_ok off /\ sec_report off s s').
+
+Lemma merge_loop_env_spec fuel : forall e s r e' s',
+  CInv (s_c s) -> env_ok e ->
+  merge_loop_env node_hash V fuel e s = ((r, e'), s') ->
+  merge_post s r e' s' /\ ((length (w_interf (s_w s)) < fuel)%nat -> r <> Some EFuelC).
+Proof.
+  induction fuel as [|f IH]; intros e s r e' s' HI He H.
+  - cbn in H. apply ret_inv in H as [[= -> ->] ->]. split; [|intros Hl; inversion Hl].
+    split; [exact HI|]. split; [apply mframe_refl|]. split; [exact He|]. split; [apply textend_refl | discriminate].
+  - cbn [merge_loop_env] in H.
+    minva H e0 s0 Ep. destruct (env_point_spec _ _ _ _ He HI Ep) as (HI0 & He0 & EF0 & _ & _).
+    rewrite bind_get_client in H.
+    minva H d s1 Er. apply rc_spec in Er as (F1 & T1 & Hcfg).
+    assert (HI1 := tf_cinv _ _ F1 HI0).
+    assert (Fm1 : mframe s s1) by (eapply mframe_trans; [apply eframe_mframe; exact EF0 | apply tframe_mframe; exact F1]).
+    assert (Tq1 : textend ev_quiet s s1).
+    { destruct T1 as (evs & ? & ?). exists evs. rewrite <- (ef_tr _ _ EF0). auto. }
+    assert (Ts1 : textend ev_safe_c s s1) by (eapply textend_impl; [apply ev_quiet_safe_c | exact Tq1]).
+    destruct d as [msg|].
+    2: { apply ret_inv in H as [[= -> ->] ->]. split; [|discriminate].
+         split; [exact HI1|]. split; [exact Fm1|]. split; [exact He0|]. split; [exact Ts1 | discriminate]. }
+    minva H a s3 Em. destruct a as [a e1].
+    destruct (merge_latest_mem_env_spec _ _ _ _ _ _ HI1 He0 Em) as (HI3 & Fm3 & Cf3 & He3 & Tn3 & Hnf3 & Hr3).
+    assert (Fm13 : mframe s s3) by (eapply mframe_trans; eauto).
+    assert (Ts3 : textend ev_safe_c s s3).
+    { eapply textend_trans; [exact Ts1|]. eapply textend_impl; [apply ev_nocfg_safe_c | exact Tn3]. }
+    assert (Hmsg_ok : a <> inr ENote -> True) by auto.
+    destruct a as [w|err].
+    2: { apply ret_inv in H as [[= -> ->] ->]. destruct Hr3 as (_ & Hsec & _).
+         split; [|intros _ [= ->]; apply Hnf3; reflexivity].
+         split; [exact HI3|]. split; [exact Fm13|]. split; [exact He3|]. split; [exact Ts3|].
+         intros [= ->]. exists msg. split.
+         - (* the offending note is what the configuration held *)
+           destruct msg as [|b m]; [left; reflexivity|].
+           destruct (Hsec eq_refl) as (evs & _ & Hex & _).
+           (* a security error needs a signed message: the loop was entered *)
+           unfold merge_latest_mem_env in Em. rewrite bind_get_client in Em.
+           rewrite (ci_vs _ _ _ _ _ _ HI1) in Em.
+           destruct (Note.open str V (b :: m) vs) as [n|er] eqn:Ho; [|apply ret_inv in Em as [[= ? ?] _]; discriminate].
+           destruct (parse_tree (n_text n)) as [tr|k|] eqn:Hp; try (apply ret_inv in Em as [[= ? ?] _]; discriminate).
+           right. exists tr, n. auto.
+         - eapply sec_report_prefix; [exact Tq1 | apply Hsec; reflexivity]. }
+    destruct Hr3 as (Tq3 & s1' & Hch3 & Hm3 & _ & Hsame3).
+    destruct w.
+    2,3: apply ret_inv in H as [[= -> ->] ->]; (split; [|discriminate]);
+         (split; [exact HI3|]); (split; [exact Fm13|]); (split; [exact He3|]); (split; [exact Ts3 | discriminate]).
+    (* the stored head is in the past: write ours — as re-read after a possible environment turn *)
+    specialize (Hsame3 ltac:(discriminate)). subst s1'.
+    cbn in Hm3. destruct Hm3 as (_ & Hpos & Hpast).
+    set (L3 := c_latest (s_c s3)) in *.
+    minva H e2 s4 Ep2. destruct (env_point_spec _ _ _ _ He3 HI3 Ep2) as (HI4 & He4 & EF4 & _ & Hmove).
+    rewrite bind_get_client in H.
+    minva H ok s5 Ew. apply write_config_spec in Ew as (Hc & Hrem & Htr & Hint & Hkeep & Hfail).
+    set (L4 := c_latest (s_c s4)) in *.
+    assert (HL34 : L4 = L3 \/ (Codec.tN L3 < Codec.tN L4 /\ Consistent L3 L4)).
+    { destruct Hmove as [[E _]|(_ & _ & Hlt & Hcc)]; [left; exact E | right; auto]. }
+    assert (Hpos4 : 0 < Codec.tN L4) by (destruct HL34 as [->|[? _]]; lia).
+    assert (Hsig4 : signed_tree (c_latest_msg (s_c s4)) L4).
+    { destruct (ci_head _ _ _ _ _ _ HI4) as [[_ H0]|Hs]; [fold L4 in H0; lia | exact Hs]. }
+    assert (Hr4 := signed_range V vs signed_small _ _ Hsig4).
+    assert (Hev : ev_safe_c (EvWriteConfig (latest_file (c_name (s_c s4))) msg (c_latest_msg (s_c s4)) ok)).
+    { cbn. split; [rewrite (ci_name _ _ _ _ _ _ HI4); reflexivity|].
+      destruct Hpast as [->|(t & Ht & Hlt & Hcc)]; [left; exists L4; split; [exact Hsig4 | left; reflexivity]|].
+      destruct HL34 as [E|[Hlt4 Hc4]].
+      - left. exists L4. split; [exact Hsig4|]. right. exists t. rewrite E. auto.
+      - destruct (consistent_trans node_hash t L3 L4 Hcc Hc4 ltac:(lia) ltac:(lia)) as [Hct|C]; [left | right; exact C].
+        exists L4. split; [exact Hsig4|]. right. exists t. split; [exact Ht|]. split; [lia | exact Hct]. }
+    assert (HI5 : CInv (s_c s5)) by (rewrite Hc; exact HI4).
+    assert (Fm5 : mframe s s5).
+    { eapply mframe_trans; [exact Fm13|]. eapply mframe_trans; [apply eframe_mframe; exact EF4|].
+      constructor; try (rewrite Hc; reflexivity); [exact Hrem|]. apply Hkeep. apply latest_file_not_key. }
+    assert (Ts5 : textend ev_safe_c s s5).
+    { eapply textend_trans; [exact Ts3|]. eapply textend_one; [rewrite Htr, (ef_tr _ _ EF4); reflexivity | exact Hev]. }
+    assert (Tq5 : forall off s'', sec_report off s5 s'' -> sec_report off s s'').
+    { intros off s'' (evs & Ht & Hex & Hall). destruct Tq1 as (ev1 & Ht1 & Q1). destruct Tq3 as (ev3 & Ht3 & Q3).
+      exists (ev1 ++ ev3 ++ [EvWriteConfig (latest_file (c_name (s_c s4))) msg (c_latest_msg (s_c s4)) ok] ++ evs).
+      split; [rewrite Ht, Htr, (ef_tr _ _ EF4), Ht3, Ht1, <- !app_assoc; reflexivity|].
+      split; [apply Exists_app; right; apply Exists_app; right; apply Exists_app; right; exact Hex|].
+      intros m Hin. apply in_app_or in Hin as [Hin|Hin].
+      { exfalso. rewrite Forall_forall in Q1. destruct (Q1 _ Hin) as [_ Hns]. apply Hns. exact I. }
+      apply in_app_or in Hin as [Hin|Hin].
+      { exfalso. rewrite Forall_forall in Q3. destruct (Q3 _ Hin) as [_ Hns]. apply Hns. exact I. }
+      apply in_app_or in Hin as [[Hin|[]]|Hin]; [discriminate | auto]. }
+    destruct ok.
+    + apply ret_inv in H as [[= -> ->] ->]. split; [|discriminate].
+      split; [exact HI5|]. split; [exact Fm5|]. split; [exact He4|]. split; [exact Ts5 | discriminate].
+    + apply IH in H as ((HI6 & Fm6 & He6 & Ts6 & Hsec6) & Hfuel); auto.
+      split.
+      * split; [exact HI6|]. split; [eapply mframe_trans; eauto|]. split; [exact He6|].
+        split; [eapply textend_trans; eauto|].
+        intros Hr. destruct (Hsec6 Hr) as (off & Hoff & Hrep). exists off. split; [exact Hoff | apply Tq5; exact Hrep].
+      * intros Hlen. apply Hfuel.
+        assert (Ew0 : s_w s0 = s_w s) by apply (ef_w _ _ EF0).
+        assert (Ei : w_interf (s_w s4) = w_interf (s_w s)).
+        { rewrite (ef_w _ _ EF4). destruct Cf3 as [_ ->]. rewrite (tf_interf _ _ F1), Ew0. reflexivity. }
+        assert (Ec : w_config (s_w s4) = w_config (s_w s0)).
+        { rewrite (ef_w _ _ EF4). destruct Cf3 as [-> _]. apply (tf_config _ _ F1). }
+        assert (En : c_name (s_c s4) = c_name (s_c s0)).
+        { rewrite (ef_name _ _ EF4), (mf_name _ _ Fm3). apply (tf_name _ _ F1). }
+        rewrite Hint, Ei.
+        destruct (Hfail eq_refl) as (x & rr & [Hi|[Hne Hold]]).
+        -- rewrite Ei in Hi. rewrite Hi in *. cbn in *. lia.
+        -- exfalso. rewrite Ec, En in Hne. apply Hne. symmetry. exact Hcfg.
+Qed.
+
+(* (a) + (c) for mergeLatest: whatever the environment (env_ok) and the foreign writer of the
+   configuration do *)
+Theorem merge_latest_env_spec msg e s r e' s' :
+  CInv (s_c s) -> env_ok e ->
+  merge_latest_env node_hash V msg e s = ((r, e'), s') ->
+  merge_post s r e' s' /\ r <> Some EFuelC.
+Proof.
+  intros HI He H. unfold merge_latest_env in H.
+  minva H a s1 Em. destruct a as [a e1].
+  destruct (merge_latest_mem_env_spec _ _ _ _ _ _ HI He Em) as (HI1 & Fm1 & Cf1 & He1 & Tn1 & Hnf1 & Hr1).
+  assert (Ts1 : textend ev_safe_c s s1) by (eapply textend_impl; [apply ev_nocfg_safe_c | exact Tn1]).
+  destruct a as [w|err].
+  2: { apply ret_inv in H as [[= -> ->] ->]. destruct Hr1 as (_ & Hsec & _).
+       split; [|intros [= ->]; apply Hnf1; reflexivity].
+       split; [exact HI1|]. split; [exact Fm1|]. split; [exact He1|]. split; [exact Ts1|].
+       intros [= ->]. exists msg. split; [|apply Hsec; reflexivity].
+       destruct msg as [|b m]; [left; reflexivity|].
+       unfold merge_latest_mem_env in Em. rewrite bind_get_client in Em.
+       rewrite (ci_vs _ _ _ _ _ _ HI) in Em.
+       destruct (Note.open str V (b :: m) vs) as [n|er] eqn:Ho; [|apply ret_inv in Em as [[= ? ?] _]; discriminate].
+       destruct (parse_tree (n_text n)) as [tr|k|] eqn:Hp; try (apply ret_inv in Em as [[= ? ?] _]; discriminate).
+       right. exists tr, n. auto. }
+  destruct Hr1 as (Tq1 & _).
+  destruct w.
+  1,2: apply ret_inv in H as [[= -> ->] ->]; (split; [|discriminate]);
+       (split; [exact HI1|]); (split; [exact Fm1|]); (split; [exact He1|]); (split; [exact Ts1 | discriminate]).
+  rewrite bind_get_world in H.
+  apply merge_loop_env_spec in H as ((HI2 & Fm2 & He2 & Ts2 & Hsec2) & Hfuel); auto.
+  split; [|apply Hfuel; lia].
+  split; [exact HI2|]. split; [eapply mframe_trans; eauto|]. split; [exact He2|].
+  split; [eapply textend_trans; eauto|].
+  intros Hr. destruct (Hsec2 Hr) as (off & Hoff & Hrep). exists off. split; [exact Hoff|].
+  eapply sec_report_prefix; eauto.
+Qed.
+
+(* ---- the statements in explicit form (restated in Props/C13.v) ------------------------------------- *)
+
+(* (c) for mergeLatestMem: the report names the offending note and the note of the head the client holds
+   when the call returns — the head current at detection time, reached from the initial one by
+   environment turns only (not a stale snapshot) *)
+Corollary mem_env_security_report msg e s e' s' :
+  CInv (s_c s) -> env_ok e ->
+  merge_latest_mem_env node_hash V msg e s = ((inr ESecurity, e'), s') ->
+  chain (c_latest (s_c s)) (c_latest (s_c s')) /\
+  exists evs, s_tr s' = s_tr s ++ evs /\ Exists is_sec evs /\
+    forall m, In (EvSecurity m) evs ->
+      infix (indent msg) m /\ infix (indent (c_latest_msg (s_c s'))) m.
+Proof.
+  intros HI He H. apply merge_latest_mem_env_spec in H; auto.
+  destruct H as (_ & _ & _ & _ & _ & _ & Hch & Hsec & _). split; [exact Hch|]. apply Hsec. reflexivity.
+Qed.
+
+(* (a) + (c) for mergeLatest *)
+Corollary merge_latest_env_safe msg e s r e' s' :
+  CInv (s_c s) -> env_ok e ->
+  merge_latest_env node_hash V msg e s = ((r, e'), s') ->
+  CInv (s_c s') /\ env_ok e' /\ r <> Some EFuelC /\
+  exists evs, s_tr s' = s_tr s ++ evs /\
+    (forall f old new ok, In (EvWriteConfig f old new ok) evs ->
+       f = latest_file name /\ (config_write_ok old new \/ coll)) /\
+    (r = Some ESecurity ->
+       Exists is_sec evs /\
+       exists off, note_ok off /\
+         forall m, In (EvSecurity m) evs ->
+           infix (indent off) m /\ infix (indent (c_latest_msg (s_c s'))) m).
+Proof.
+  intros HI He H. apply merge_latest_env_spec in H as ((HI' & _ & He' & (evs & Htr & Hall) & Hsec) & Hnf); auto.
+  split; [exact HI'|]. split; [exact He'|]. split; [exact Hnf|].
+  exists evs. split; [exact Htr|]. split.
+  - intros f old new ok Hin. rewrite Forall_forall in Hall. apply (Hall _ Hin).
+  - intros Hr. destruct (Hsec Hr) as (off & Hoff & evs' & Htr' & Hex & Hrep).
+    rewrite Htr in Htr'. apply app_inv_head in Htr'. subst evs'.
+    split; [exact Hex|]. exists off. auto.
+Qed.
+
+End Env.
